@@ -213,6 +213,19 @@ def main(tier):
         tasks.append({"pkg": "", "name": "all", "kind": "group", "deps": ["//%s:top" % pk for pk in pkgs]})
         scns.append({"project": {"config": "disable_git = true\n", "tasks": tasks}, "argv": ["run", "//:all"],
                      "clock": 1000, "sched": {"seed": k}})
+    # ... also when the COND file is reached through a symbolic link: kept in a shared directory, or ONE file linked into two
+    # packages (":n" then means //p:n in p and //p/q:n in p/q)
+    import copy
+    for base_scn in list(scns):
+        s1 = copy.deepcopy(base_scn)
+        s1["cond_symlinks"] = True
+        scns.append(s1)
+    s2 = copy.deepcopy(scns[0])
+    s2["project"]["tasks"] = [t for t in s2["project"]["tasks"] if t["pkg"] != ""] + [
+        {"pkg": "", "name": "all", "kind": "group", "deps": ["//p:top", "//p/q:top"]}]
+    s2["project"]["tasks"] = [t for i, t in enumerate(s2["project"]["tasks"]) if not (t["name"] == "all" and i < len(s2["project"]["tasks"]) - 1)]
+    s2["cond_links"] = {"p/q": "p"}
+    scns.append(s2)
     results = RC.run_batch(scns)
     verdicts, traces, errs, tr = RC.judge_batch(scns, results)
     for i, r in errs:
